@@ -45,3 +45,50 @@ __CPROVER_ensures((page->free != NULL || g_cap0 >= page->reserved) ==> (g_ext_n 
 __CPROVER_ensures((page->free == NULL && g_cap0 < page->reserved) ==> (g_ext_n == 1 && g_ext_bsize == VC_BS && g_ext_extend >= 1 && page->capacity == g_cap0 + g_ext_extend &&
      page->capacity <= page->reserved && g_ext_extend <= (VC_BS >= MI_MAX_EXTEND_SIZE ? MI_MIN_EXTEND : (MI_MAX_EXTEND_SIZE / VC_BS < MI_MIN_EXTEND ? MI_MIN_EXTEND : MI_MAX_EXTEND_SIZE / VC_BS))));
 #endif
+
+#ifdef VC_CBMC
+/* ================= the generic allocation path (C04, C06, C07, C08) =================
+   (no ghost pointer is dereferenced and no callee contract returns a pre-existing pointer: both make the queries explode;
+   the page search yields a fresh page descriptor or NULL, and the page allocator records the facts about the page it was given) */
+bool g_f1_null, g_f2_null;                    /* logical: does the first / second page search fail? */
+size_t g_find_n, g_find_size; size_t g_collect2_n, g_collect2_forced_n; size_t g_drain_n, g_deferred_n;
+size_t g_pm_n; bool g_pm_zero; size_t g_pm_size; void* g_pm_ret; bool g_pm_huge, g_pm_full; size_t g_pm_bs;
+size_t g_tofull_n; size_t g_mz_n; void* g_mz_p; size_t g_mz_size;
+static mi_page_t* c_find_page_rec(mi_heap_t* heap, size_t size, size_t huge_alignment)
+__CPROVER_requires(1) __CPROVER_assigns(g_find_n, g_find_size)
+__CPROVER_ensures(g_find_n == __CPROVER_old(g_find_n) + 1 && g_find_size == size)
+__CPROVER_ensures((__CPROVER_old(g_find_n) == 0 ? g_f1_null : g_f2_null) ? __CPROVER_return_value == NULL : __CPROVER_is_fresh(__CPROVER_return_value, sizeof(mi_page_t)));
+void mi_heap_collect(mi_heap_t* heap, bool force)
+__CPROVER_requires(1) __CPROVER_assigns(g_collect2_n, g_collect2_forced_n)
+__CPROVER_ensures(g_collect2_n == __CPROVER_old(g_collect2_n) + 1 && g_collect2_forced_n == __CPROVER_old(g_collect2_forced_n) + (force ? 1 : 0));
+bool c_delayed_free_partial_rec(mi_heap_t* heap) __CPROVER_requires(1) __CPROVER_assigns(g_drain_n) __CPROVER_ensures(g_drain_n == __CPROVER_old(g_drain_n) + 1);
+void _mi_deferred_free(mi_heap_t* heap, bool force) __CPROVER_requires(1) __CPROVER_assigns(g_deferred_n) __CPROVER_ensures(g_deferred_n == __CPROVER_old(g_deferred_n) + 1);
+#define VC_PM_REC(z) (g_pm_n == __CPROVER_old(g_pm_n) + 1 && !g_pm_zero == !(z) && g_pm_size == size && !g_pm_huge == !page->is_huge && g_pm_bs == page->block_size && \
+                      !g_pm_full == !(page->reserved == page->used) && __CPROVER_return_value == g_pm_ret)
+void* _mi_page_malloc_zero(mi_heap_t* heap, mi_page_t* page, size_t size, bool zero)
+__CPROVER_requires(page != NULL) __CPROVER_assigns(g_pm_n, g_pm_zero, g_pm_size, g_pm_huge, g_pm_bs, g_pm_full) __CPROVER_ensures(VC_PM_REC(zero));
+void* _mi_page_malloc(mi_heap_t* heap, mi_page_t* page, size_t size)
+__CPROVER_requires(page != NULL) __CPROVER_assigns(g_pm_n, g_pm_zero, g_pm_size, g_pm_huge, g_pm_bs, g_pm_full) __CPROVER_ensures(VC_PM_REC(false));
+static void c_page_to_full_rec(mi_page_t* page, mi_page_queue_t* pq) __CPROVER_requires(1) __CPROVER_assigns(g_tofull_n) __CPROVER_ensures(g_tofull_n == __CPROVER_old(g_tofull_n) + 1);
+static inline void _mi_memzero_aligned(void* dst, size_t n)
+__CPROVER_requires(1) __CPROVER_assigns(g_mz_n, g_mz_p, g_mz_size) __CPROVER_ensures(g_mz_n == __CPROVER_old(g_mz_n) + 1 && g_mz_p == dst && g_mz_size == n);
+uint32_t g_gc0;
+void* _mi_malloc_generic(mi_heap_t* heap, size_t size, bool zero, size_t huge_alignment)
+__CPROVER_requires(__CPROVER_is_fresh(heap, sizeof(mi_heap_t)) && heap->generic_count == g_gc0 && heap->generic_collect_count <= ((size_t)1 << 40) && g_pm_ret != NULL)
+__CPROVER_requires(g_find_n == 0 && g_collect2_n == 0 && g_collect2_forced_n == 0 && g_drain_n == 0 && g_deferred_n == 0 && g_pm_n == 0 && g_tofull_n == 0 && g_mz_n == 0)
+__CPROVER_assigns(heap->generic_count, heap->generic_collect_count, g_find_n, g_find_size, g_collect2_n, g_collect2_forced_n, g_drain_n, g_deferred_n, g_pm_n, g_pm_zero, g_pm_size, g_pm_huge, g_pm_bs, g_pm_full, g_tofull_n, g_mz_n, g_mz_p, g_mz_size)
+/* C08: every 100th generic allocation drains the delayed frees of other threads */
+__CPROVER_ensures(g_drain_n == (g_gc0 + 1 >= 100 ? 1 : 0) && heap->generic_count == (g_gc0 + 1 >= 100 ? 0 : g_gc0 + 1))
+/* C07/C06: no page => collect everything once (forced) and retry once; still none => NULL and nothing allocated; a well-formed request
+   therefore fails only if the page search failed twice */
+__CPROVER_ensures(!g_f1_null ==> (g_find_n == 1 && g_collect2_forced_n == 0))
+__CPROVER_ensures(g_f1_null ==> (g_find_n == 2 && g_collect2_forced_n == 1 && g_find_size == size))
+__CPROVER_ensures((g_f1_null && g_f2_null) ==> (__CPROVER_return_value == NULL && g_pm_n == 0))
+__CPROVER_ensures(!(g_f1_null && g_f2_null) ==> (__CPROVER_return_value == g_pm_ret && g_pm_n == 1 && g_pm_size == size))
+/* C04: a zero-initialising request is either zeroed by the page allocator, or -- for a huge page -- zeroed afterwards over the WHOLE usable block size */
+__CPROVER_ensures((zero && g_pm_n == 1 && !g_pm_huge) ==> (g_pm_zero && g_mz_n == 0))
+__CPROVER_ensures((zero && g_pm_n == 1 && g_pm_huge) ==> (g_mz_n == 1 && g_mz_p == g_pm_ret && g_mz_size == g_pm_bs - MI_PADDING_SIZE))
+__CPROVER_ensures(!zero ==> g_mz_n == 0)
+/* a page that has no block left goes to the full queue */
+__CPROVER_ensures(g_pm_n == 1 ==> (g_tofull_n == (g_pm_full ? 1 : 0)));
+#endif
